@@ -2,6 +2,7 @@ package checks
 
 import (
 	"fmt"
+	"os"
 
 	corev1 "k8s.io/api/core/v1"
 	"sync"
@@ -66,6 +67,12 @@ func mkScenario(t *testing.T, o scOpt) *w.Scenario {
 	}
 	st.Budget = o.budget
 	sc.Init = []*w.State{st}
+	if os.Getenv("VERIF_DESCRIBE_INIT") == o.name {
+		fmt.Println("initial state of", o.name)
+		for _, l := range st.Describe() {
+			fmt.Println("  " + l)
+		}
+	}
 	return sc
 }
 
